@@ -22,6 +22,7 @@ package main
 
 import (
 	"context"
+	"encoding/hex"
 	"encoding/json"
 	"fmt"
 	"go/ast"
@@ -30,6 +31,7 @@ import (
 	"math/rand"
 	"os"
 	"path/filepath"
+	"regexp"
 	"runtime"
 	"sort"
 	"strconv"
@@ -844,6 +846,373 @@ func c04RunBook(o *c04Out, size int, src string, lines []string, seed int64, off
 	}
 }
 
+// ---------- opening book: model correspondence (coq/Opening.v) ----------
+//
+//   CASE BOOK ; <size> ; <lines: x<hex>,... or -> ; <dump 0|1> ; <Int31 script v0,v1,... or -> ; <G|P position> ; ...
+//        | <OK | ERR kind lno x<hex word> | PANIC> <answer> ...      | n=<entries> <hash>@<position>@<move>*<weight>+.../...
+// One case = one book (raw line bytes) x one batch of queries answered IN ORDER on one scripted random source:
+// G = OpeningBook.GetMove(p, r) (answer move/ok/next draw), P = OpeningPlayer.GetMove(ctx, p) on a player whose inner player is a
+// stub and whose generator is the same r (answer move/next draw).  The first batch of a book carries the whole book as L2.
+
+// c04ScriptSrc replays Int31 values: Int63 = v<<32 with 0 <= v < 2^31 - 2^21, so that rand.Int31n(n) = v mod n with exactly
+// one draw for every n <= 2^21 (no rejection; for a power of two v&(n-1) = v mod n).  Values are produced by gen on demand
+// and recorded.
+type c04ScriptSrc struct {
+	gen   func(i int) int32
+	drawn []int32
+}
+
+func (s *c04ScriptSrc) Seed(int64) {}
+func (s *c04ScriptSrc) Int63() int64 {
+	v := s.gen(len(s.drawn))
+	s.drawn = append(s.drawn, v)
+	return int64(v) << 32
+}
+
+// c04Stub is the inner player of the model cases: a placement that depends on the position it is handed.
+type c04Stub struct{}
+
+func (c04Stub) GetMove(ctx context.Context, p *tak.Position) tak.Move {
+	return tak.Move{X: int8(p.Size() - 1), Y: int8(p.MoveNumber() % 8), Type: tak.PlaceStanding}
+}
+
+func c04Hex(s string) string { return "x" + hex.EncodeToString([]byte(s)) }
+
+// c04ExpectBuild: what BuildOpeningBook has to answer, decided independently: words by strings.Split, ptn.ParseMove (the
+// subject of C11) for the text, the rules oracle AND Position.Move for legality.  Returns "OK" or "ERR kind lno x<hex word>".
+func c04ExpectBuild(size int, lines []string) string {
+	for lno, line := range lines {
+		p := tak.New(tak.Config{Size: size})
+		for _, w := range strings.Split(line, " ") {
+			m, err := ptn.ParseMove(w)
+			if err != nil {
+				return fmt.Sprintf("ERR 1 %d %s", lno, c04Hex(w))
+			}
+			if ok, _ := c04Legal(p, m); !ok {
+				return fmt.Sprintf("ERR 3 %d %s", lno, c04Hex(w))
+			}
+			p, _ = p.Move(m)
+		}
+	}
+	return "OK"
+}
+
+var c04BookErrRe = regexp.MustCompile("(?s)^line (\\d+): move `(.*)`: (.*)$")
+
+func c04RunBookModel(o *c04Out, size int, src string, lines []string, seed int64, offbook []c04Pos, maxQueries int) {
+	desc := fmt.Sprintf("bookmodel size=%d src=%s seed=%d lines=%s", size, src, seed, strings.ReplaceAll(strings.Join(lines, ";"), " ", "_"))
+	hexLines := "-"
+	if len(lines) > 0 {
+		hs := make([]string, len(lines))
+		for i, l := range lines {
+			hs[i] = c04Hex(l)
+		}
+		hexLines = strings.Join(hs, ",")
+	}
+	var ob *ai.OpeningBook
+	var berr error
+	status := "OK"
+	if pan, _ := safely(func() { ob, berr = ai.BuildOpeningBook(size, lines) }); pan {
+		status = "PANIC"
+	} else if berr != nil {
+		msg := berr.Error()
+		if mm := c04BookErrRe.FindStringSubmatch(msg); mm != nil {
+			kind := 3
+			if _, perr := ptn.ParseMove(mm[2]); perr != nil {
+				kind = 1
+			}
+			status = fmt.Sprintf("ERR %s %s %s", strconv.Itoa(kind), mm[1], c04Hex(mm[2]))
+		} else {
+			status = "ERR 2 0 x" // "compute symmetries: ..."
+		}
+	}
+	o.stat("bookmodel_books", 1)
+	o.stat("bookmodel_status_"+strings.Fields(status)[0], 1)
+	inDomain := size >= 3 && size <= 8
+	if inDomain {
+		if want := c04ExpectBuild(size, lines); want != status {
+			class := "book-build-error"
+			if status == "PANIC" {
+				class = "book-panic"
+			} else if status == "OK" {
+				class = "book-accepts-bad-line"
+			}
+			o.fail(class, desc, "BuildOpeningBook: "+status, want+" (words parsed one by one, moves replayed with the rules oracle)")
+		}
+	}
+	if status != "OK" {
+		if status != "PANIC" {
+			o.stat("bookmodel_err_kind_"+strings.Fields(status)[1], 1)
+		}
+		o.lines = append(o.lines, fmt.Sprintf("CASE BOOK ; %d ; %s ; 0 ; - | %s", size, hexLines, status))
+		return
+	}
+	// ---- the whole book, entries sorted by hash ----
+	ents := ai.VerifBookDump(ob)
+	sort.Slice(ents, func(i, j int) bool { return ents[i].Hash < ents[j].Hash })
+	es := make([]string, len(ents))
+	maxW, nch := 0, 0
+	for i, e := range ents {
+		cs := make([]string, len(e.Moves))
+		for j := range e.Moves {
+			cs[j] = fmt.Sprintf("%s*%d", encMove(e.Moves[j]), e.Weights[j])
+			if e.Weights[j] > maxW {
+				maxW = e.Weights[j]
+			}
+			nch++
+			if ok, why := c04Legal(e.P, e.Moves[j]); !ok {
+				o.fail("book-entry-illegal", desc+" entry="+c04PosStr(e.P), "the book stores "+c04FmtMove(e.Moves[j])+" for this position: "+why, "every stored reply is legal in the position it is stored for")
+			}
+		}
+		if e.P.Hash() != e.Hash {
+			o.fail("book-entry-illegal", desc+" entry="+c04PosStr(e.P), fmt.Sprintf("stored under key %d, Hash() = %d", e.Hash, e.P.Hash()), "entries are keyed by the hash of their position")
+		}
+		es[i] = fmt.Sprintf("%d@%s@%s", e.Hash, enc(e.P), strings.Join(cs, "+"))
+	}
+	dump := fmt.Sprintf("n=%d %s", len(ents), strings.Join(es, "/"))
+	o.stat("bookmodel_entries", int64(len(ents)))
+	o.stat("bookmodel_children", int64(nch))
+	if maxW > 1 {
+		o.stat("bookmodel_books_with_weight_gt1", 1)
+	}
+	for _, e := range ents {
+		if len(e.Moves) > 1 {
+			o.stat("bookmodel_entries_with_several_children", 1)
+		}
+	}
+	// ---- query positions: every prefix position of every line in all 8 images (independent transform), the line ends, off-book positions ----
+	r := rand.New(rand.NewSource(seed))
+	var qs []*tak.Position
+	seen := map[string]bool{}
+	add := func(q *tak.Position) {
+		k := enc(q)
+		if !seen[k] {
+			seen[k] = true
+			qs = append(qs, q)
+		}
+	}
+	for _, line := range lines {
+		var ms []tak.Move
+		for _, w := range strings.Split(line, " ") {
+			m, err := ptn.ParseMove(w)
+			if err != nil {
+				break
+			}
+			ms = append(ms, m)
+		}
+		for k := 0; k < 8; k++ {
+			q := tak.New(tak.Config{Size: size})
+			for _, m := range ms {
+				add(q)
+				next, err := q.Move(c04SymMove(k, size, m))
+				if err != nil {
+					break
+				}
+				q = next
+			}
+			add(q)
+		}
+	}
+	for _, pp := range offbook {
+		if pp.p.Size() == size {
+			add(pp.p)
+		}
+	}
+	r.Shuffle(len(qs), func(i, j int) { qs[i], qs[j] = qs[j], qs[i] })
+	if len(qs) > maxQueries {
+		qs = qs[:maxQueries]
+	}
+	const batch = 12
+	ctx := context.Background()
+	first := true
+	for b0 := 0; b0 < len(qs) || first; b0 += batch {
+		b1 := b0 + batch
+		if b1 > len(qs) {
+			b1 = len(qs)
+		}
+		mode := r.Intn(4)
+		gr := rand.New(rand.NewSource(seed + int64(b0) + 1))
+		ssrc := &c04ScriptSrc{gen: func(i int) int32 {
+			switch mode {
+			case 0: // every comparison `0 < weight` succeeds: the last child is returned
+				return 0
+			case 1: // small values: v mod sum is v itself for the later children
+				return int32(gr.Intn(4))
+			case 2:
+				if gr.Intn(3) == 0 {
+					return int32(gr.Intn(3))
+				}
+			}
+			return int32(gr.Int63n(1<<31 - 1<<21))
+		}}
+		rr := rand.New(ssrc)
+		player := ai.WithOpeningBook(c04Stub{}, ob)
+		if !ai.VerifSetOpeningPlayerRand(player, rr) {
+			o.fail("book-panic", desc, "WithOpeningBook did not return an OpeningPlayer", "the opening book wrapper")
+			return
+		}
+		var qstr, ans []string
+		for _, q := range qs[b0:b1] {
+			stored, inBook := ai.VerifBookMoves(ob, q)
+			before := len(ssrc.drawn)
+			qd := desc + " query=" + c04PosStr(q)
+			if r.Intn(2) == 0 {
+				var m tak.Move
+				var ok bool
+				if pan, msg := safely(func() { m, ok = ob.GetMove(q, rr) }); pan {
+					o.fail("book-panic", qd, "OpeningBook.GetMove panicked: "+msg, "no crash")
+					return
+				}
+				qstr = append(qstr, "G "+enc(q))
+				ans = append(ans, fmt.Sprintf("%s/%d/%d", encMove(m), b2i(ok), len(ssrc.drawn)))
+				if ok != inBook {
+					o.fail("book-move-illegal", qd, fmt.Sprintf("GetMove ok=%v, the book has an entry: %v", ok, inBook), "ok iff the position's hash is a key of the book")
+				}
+				if ok {
+					o.stat("bookmodel_queries_answered_by_book", 1)
+					if lok, why := c04Legal(q, m); !lok && c04Live(q) {
+						o.fail("book-move-illegal", qd, "OpeningBook.GetMove returned "+c04FmtMove(m)+": "+why, "a legal move")
+					}
+				} else {
+					o.stat("bookmodel_queries_off_book", 1)
+				}
+			} else {
+				var m tak.Move
+				if pan, msg := safely(func() { m = player.GetMove(ctx, q) }); pan {
+					o.fail("book-panic", qd, "OpeningPlayer.GetMove panicked: "+msg, "no crash")
+					return
+				}
+				qstr = append(qstr, "P "+enc(q))
+				ans = append(ans, fmt.Sprintf("%s/%d", encMove(m), len(ssrc.drawn)))
+				if inBook {
+					o.stat("bookmodel_queries_answered_by_book", 1)
+					if lok, why := c04Legal(q, m); !lok && c04Live(q) {
+						o.fail("book-move-illegal", qd, "OpeningPlayer.GetMove returned "+c04FmtMove(m)+": "+why, "a legal move")
+					}
+				} else {
+					o.stat("bookmodel_queries_off_book", 1)
+					if m != (c04Stub{}).GetMove(ctx, q) {
+						o.fail("book-move-illegal", qd, "off book, OpeningPlayer.GetMove returned "+c04FmtMove(m), "the inner player's answer")
+					}
+				}
+			}
+			if used := len(ssrc.drawn) - before; used != len(stored) {
+				// the script is built so that Int31n never rejects: one draw per child
+				o.fail("harness-panic", qd, fmt.Sprintf("%d draws for %d children", used, len(stored)), "one Int31n draw per stored reply")
+			}
+			o.stat("bookmodel_queries", 1)
+		}
+		vals := "-"
+		if len(ssrc.drawn) > 0 {
+			vs := make([]string, len(ssrc.drawn))
+			for i, v := range ssrc.drawn {
+				vs[i] = strconv.Itoa(int(v))
+			}
+			vals = strings.Join(vs, ",")
+		}
+		in := fmt.Sprintf("BOOK ; %d ; %s ; %d ; %s", size, hexLines, b2i(first), vals)
+		if len(qstr) > 0 {
+			in += " ; " + strings.Join(qstr, " ; ")
+		}
+		l := fmt.Sprintf("CASE %s | %s", in, strings.Join(append([]string{"OK"}, ans...), " "))
+		if first {
+			l += " | " + dump
+		}
+		o.lines = append(o.lines, l)
+		first = false
+	}
+}
+
+// c04TransposingLines: lines that reach the same position along different move orders (two stones of one colour swapped),
+// mirror images of one another, repeated lines and lines continuing one another: entries are shared, weights exceed 1.
+func c04TransposingLines(r *rand.Rand, size int) []string {
+	var lines []string
+	for len(lines) < 5 {
+		_, ms := randomGame(r, tak.Config{Size: size}, 5+r.Intn(4), -1, false)
+		if len(ms) < 5 {
+			continue
+		}
+		str := func(ms []tak.Move) string {
+			s := make([]string, len(ms))
+			for i, m := range ms {
+				s[i] = ptn.FormatMove(m)
+			}
+			return strings.Join(s, " ")
+		}
+		legal := func(ms []tak.Move) bool {
+			p := tak.New(tak.Config{Size: size})
+			for _, m := range ms {
+				q, err := p.Move(m)
+				if err != nil {
+					return false
+				}
+				p = q
+			}
+			return true
+		}
+		lines = append(lines, str(ms))
+		// swap plies i and i+2 (same colour, both placements): the same position two plies later
+		for try := 0; try < 4; try++ {
+			i := 2 + r.Intn(len(ms)-4)
+			sw := append([]tak.Move(nil), ms...)
+			sw[i], sw[i+2] = sw[i+2], sw[i]
+			if !sw[i].IsSlide() && !sw[i+2].IsSlide() && legal(sw) {
+				lines = append(lines, str(sw))
+				break
+			}
+		}
+		k := 1 + r.Intn(7)
+		im := make([]tak.Move, len(ms))
+		for i, m := range ms {
+			im[i] = c04SymMove(k, size, m)
+		}
+		switch r.Intn(3) {
+		case 0:
+			lines = append(lines, str(im)) // a symmetric image of the line
+		case 1:
+			lines = append(lines, str(ms[:2+r.Intn(len(ms)-2)])) // a prefix
+		default:
+			lines = append(lines, str(ms)) // the same line again
+		}
+	}
+	return lines
+}
+
+// c04BrokenLines: a legal set of lines with one defect planted at a random place.
+func c04BrokenLines(r *rand.Rand, size int) []string {
+	lines := c04SyntheticLines(r, size, 3+r.Intn(3))
+	li := r.Intn(len(lines))
+	ws := strings.Split(lines[li], " ")
+	wi := r.Intn(len(ws))
+	switch r.Intn(9) {
+	case 0:
+		ws[wi] = "zz" // does not parse
+	case 1:
+		ws[wi] = "" // two adjacent spaces
+	case 2:
+		ws[wi] = fmt.Sprintf("%c%d", 'a'+size, 1) // off the board of this size (parses up to 8x8)
+	case 3:
+		ws[wi] = "a9"
+	case 4:
+		if wi > 0 {
+			ws[wi] = ws[wi-1] // usually an occupied square
+		} else {
+			ws[wi] = "Sa1" // a wall in the opening
+		}
+	case 5:
+		ws[wi] = "Ca1" // capstone in the opening / on sizes without capstones / possibly legal
+	case 6:
+		ws[wi] = "3a1>111" // a slide that is rarely possible
+	case 7:
+		ws[wi] = ws[wi] + "?" // annotation: still the same move
+	default:
+		lines[li] = lines[li] + " " // trailing space: an empty word at the end
+		return lines
+	}
+	lines[li] = strings.Join(ws, " ")
+	return lines
+}
+
 // ---------- Monte-Carlo ----------
 
 type c04MCCfg struct {
@@ -1125,6 +1494,36 @@ func runC04(c *ctx) {
 		addBook(size, "synthetic", c04SyntheticLines(r, size, 4+r.Intn(4)))
 	}
 
+	// ---- opening book: model correspondence (CASE BOOK) ----
+	addBookModel := func(size int, src string, lines []string, maxQ int) {
+		var off []c04Pos
+		for i := 0; i < 2 && size >= 3 && size <= 8; i++ {
+			if pp, ok := newPos(size, []string{"opening", "middle"}[i]); ok {
+				off = append(off, pp)
+			}
+		}
+		seed := 1 + r.Int63n(1<<30)
+		jobs = append(jobs, c04Job{desc: "bookmodel " + src, run: func(o *c04Out) { c04RunBookModel(o, size, src, lines, seed, off, maxQ) }})
+	}
+	for _, s := range bsizes {
+		addBookModel(s, fmt.Sprintf("repo-book%d", s), repoBooks[s], 48*c.scale)
+	}
+	for j := 0; j < 6*c.scale; j++ {
+		size := 3 + j%6
+		addBookModel(size, "synthetic", c04SyntheticLines(r, size, 3+r.Intn(3)), 24)
+		addBookModel(size, "transposing", c04TransposingLines(r, size), 24)
+	}
+	for j := 0; j < 18*c.scale; j++ {
+		addBookModel(3+j%6, "broken", c04BrokenLines(r, 3+j%6), 12)
+	}
+	// sizes tak.New does not accept (a panic as soon as a line is read; no line: an empty book), and empty inputs
+	for _, sz := range []int{-1, 0, 2, 9} {
+		addBookModel(sz, "badsize", []string{"a1 b2"}, 0)
+		addBookModel(sz, "badsize-nolines", nil, 0)
+	}
+	addBookModel(5, "nolines", nil, 4)
+	addBookModel(5, "emptyline", []string{"a1 e5", ""}, 4)
+
 	// ---- Monte-Carlo ----
 	nmc := 128 * c.scale
 	if thorough {
@@ -1307,6 +1706,12 @@ func c04Replay(c *ctx) {
 	case "book":
 		lines := strings.Split(strings.ReplaceAll(kv["lines"], "_", " "), ";")
 		c04RunBook(o, int(atoi(kv["size"])), kv["src"], lines, atoi(kv["seed"]), nil)
+	case "bookmodel":
+		var lines []string
+		if _, has := kv["lines"]; has {
+			lines = strings.Split(strings.ReplaceAll(kv["lines"], "_", " "), ";")
+		}
+		c04RunBookModel(o, int(atoi(kv["size"])), kv["src"], lines, atoi(kv["seed"]), nil, 1<<30)
 	default:
 		p, err := c04ParsePos(strings.Fields(rep.Input)[0])
 		if err == nil && len(legalMoves(p)) == 0 {
